@@ -59,7 +59,11 @@ fn plan_base(prop: &str, tier: &str, h: &dyn Fn(u32, u32) -> PartPlan) -> Vec<Pa
             }
             v
         }
-        "C09" => vec![if t { pp("faults", 16, 160000 / 16) } else { pp("faults", 16, 12000 / 16) }],
+        "C09" => {
+            let mut c1 = if t { pp("faults-cap1", 8, 48000 / 8) } else { pp("faults-cap1", 8, 4000 / 8) };
+            c1.env = vec![("MELDA_ARRAYDESCRIPTORS_CACHE_CAP".to_string(), "1".to_string()), ("MELDA_DATA_CACHE_CAP".to_string(), "1".to_string())];
+            vec![if t { pp("faults", 16, 160000 / 16) } else { pp("faults", 16, 12000 / 16) }, c1]
+        }
         "C10" => {
             let mut b = if t { pp("damage-b", 8, 40000 / 8) } else { pp("damage-b", 8, 8000 / 8) };
             b.env = vec![("MELDA_ARRAYDESCRIPTORS_CACHE_CAP".to_string(), "1".to_string()), ("MELDA_DATA_CACHE_CAP".to_string(), "1".to_string())];
@@ -129,7 +133,7 @@ pub fn rule(prop: &str, tier: &str) -> String {
     }
     match prop {
         "C02" => v.push("[deliver] a generated multi-replica history builds a block graph; all its item files are delivered one at a time in a generated permutation (optionally packs last, optionally permuted listing) to a fresh replica with refresh after each file (= every prefix of the permutation); graphs with <=4 (quick) / <=5 (thorough) items: every permutation; after each delivery: incremental == full reload, applied set == reference causal closure, state == replica holding only the closure, heads == closure heads; non-trivial = >=4 items with a child block delivered before a parent and a block before its pack".into()),
-        "C09" => v.push("[faults] generated multi-replica history; for EVERY commit and meld in it: the storage snapshot at every write boundary is opened by a fresh replica (must equal the state of the intact causally complete items only; a block present must be complete, i.e. never before its pack; before the block is written the state equals the previous state), then the history prefix is re-executed with write k of that operation failing, for every k (single and repeated failure; <=16/48 re-runs per history): failed commit reports an error, keeps the staged changes and the visible state, the retry succeeds and reopening equals the fault-free twin; meld under failures followed by a fault-free meld equals the twin; non-trivial = history with a commit writing pack+block, an injected commit failure and a meld of >=3 items or an injected meld failure".into()),
+        "C09" => v.push("[faults] generated multi-replica history; for EVERY commit and meld in it: the storage snapshot at every write boundary is opened by a fresh replica (must equal the state of the intact causally complete items only; a block present must be complete, i.e. never before its pack; before the block is written the state equals the previous state), then the history prefix is re-executed with write k of that operation failing, for every k (single and repeated failure; <=16/48 re-runs per history): failed commit reports an error, keeps the staged changes, the visible state and every staged value retrievable, the retry succeeds and reopening equals the fault-free twin; meld under failures followed by a fault-free meld equals the twin; a fresh peer that melds the retried commit sees the same state as the twin; [faults-cap1] the same with capacity-1 caches; non-trivial = history with a commit writing pack+block, an injected commit failure and a meld of >=3 items or an injected meld failure".into()),
         "C10" => v.push("[damage] generated multi-replica history, fully exchanged; then 1-4 generated faults (bit flip at a generated position, truncation to a generated length, emptying, deletion, injection of 16 kinds of junk files incl. over-long indices, extension-only names and hash-valid but malformed blocks), each alone and all together, plus a sweep over the positions of one item (bit flip + truncation at every stride-th byte; every byte for items <=700 B in thorough); a fresh replica opened on the damaged storage must report an error or equal (state and applied blocks) a replica on the reference closure of the intact items, never abort, and show only submitted contents; the same through refresh on a live replica that had loaded a generated prefix. non-trivial = a fault that invalidates an item on which other blocks depend. [damage-b] capacity-1 caches: packs damaged after indexing; get_value of every revision returns an error or the intact value, read() may fail but shows only submitted contents".into()),
         "C17" => v.push("[kv] generated sequences (1-30) of write / full read / in-range non-empty slice read / list(suffix) / reopen over 12 stacks {memory, directory, SQLite file, SQLite in-memory} x {plain, Deflate, Brotli}, each against a write-once map; keys ASCII >=3 chars from stems x extensions incl. .delta .pack .flate .brotli, nested ones, upper/lower-case twins and the characters _ and %; values empty, 1 byte, random and compressible up to 128 KB; 20 list suffixes incl. empty, partial, over-long, upper-case and ones containing _ or %; final reopen + full comparison; non-trivial = a second write to an existing key, a slice read and a list in one sequence. [replica] the same generated two-replica history (rich JSON, commits, meld+refresh, resolve, reopen) on every stack; per-step observations equal to those over plain memory; replicas reopened from their storage equal the live ones; non-trivial = history with a commit and a reopen on a persistent stack".into()),
         "C18" => v.push("[configs] one generated multi-replica history (no raw partial file copies / time travel, whose selectors address block identifiers that legitimately vary per run) is executed in 8 (quick) / 26 (thorough) child processes with RAYON_NUM_THREADS in {1,2,4,16} / 1..16, MELDA_*_CACHE_CAP in {1,2,16}(+3), permuted storage listings, and twice in the same configuration (fresh hash seeds); the per-step digests of (objects, winners, conflicts, document) of every replica and the converged final state must be identical in all runs; non-trivial = history with an update touching >=8 objects or a refresh applying >=3 blocks at once".into()),
@@ -183,9 +187,9 @@ pub fn run_part(prop: &str, part: &str, tier: &str, cases: u32, seed: u64, _shar
             runner::drive("damage", prop, crate::c10::strategy(th), cases, seed, |c| crate::c10::run(c, th))
         }
         "damage-b" => runner::drive("damage-b", prop, crate::c10::strategy(tier == "thorough"), cases, seed, |c| crate::c10::run_b(c)),
-        "faults" => {
+        p if p.starts_with("faults") => {
             let th = tier == "thorough";
-            runner::drive("faults", prop, crate::c09::strategy(th), cases, seed, |c| crate::c09::run(c, th))
+            runner::drive(p, prop, crate::c09::strategy(th), cases, seed, |c| crate::c09::run(c, th))
         }
         "deliver" => {
             let th = tier == "thorough";
@@ -269,9 +273,16 @@ pub fn replay_part(prop: &str, part: &str, case: &Value) -> Option<(String, Stri
             std::env::remove_var("MELDA_DATA_CACHE_CAP");
             r
         }
-        "faults" => {
+        p if p.starts_with("faults") => {
             let case: crate::c09::C09Case = serde_json::from_value(case.clone()).ok()?;
-            runner::replay(prop, &case, 10, |c| crate::c09::run(c, true))
+            if p == "faults-cap1" {
+                std::env::set_var("MELDA_ARRAYDESCRIPTORS_CACHE_CAP", "1");
+                std::env::set_var("MELDA_DATA_CACHE_CAP", "1");
+            }
+            let r = runner::replay(prop, &case, 10, |c| crate::c09::run(c, true));
+            std::env::remove_var("MELDA_ARRAYDESCRIPTORS_CACHE_CAP");
+            std::env::remove_var("MELDA_DATA_CACHE_CAP");
+            r
         }
         "deliver" => {
             let case: crate::c02::C02Case = serde_json::from_value(case.clone()).ok()?;
